@@ -300,6 +300,23 @@ static InstResult run_fmt(const std::vector<CrashInfo> &cr, bool th, int shard, 
 			std::string f = std::string("{") + n + "}"; cases++; std::string got = do_fmt(f, 7, 8); if(got != f) throw Violation{"C19", "fmt-mismatch:out-of-range-position", "fmt(\"" + f + "\", 7, 8) = \"" + got.substr(0, 60) + "\" but a position that does not fit must be echoed"};
 		}
 		for(const char *n : {"2", "4294967296", "18446744073709551615"}) { std::string f = std::string("{") + n + "}"; cases++; std::string got = do_fmt(f, 7, 8); if(got != f) throw Violation{"C19", "fmt-mismatch:out-of-range-position", "fmt(\"" + f + "\", 7, 8) must echo an out-of-range position"}; }
+		// several specs in ONE format string: each is rendered from the defaults, independent of the specs before it
+		{
+			const char *sp[] = {"", ":x", ":X", ":o", ":b", ":d", ":08x", ":4", ":06", ":Xq", ":c"};
+			for(const char *s1 : sp) for(const char *s2 : sp) for(const char *s3 : {"", ":x", ":5"}) {
+				if(parse_spec(s1).conv == 'c' || parse_spec(s2).conv == 'c') continue;   // c with an int argument: not documented (C20 covers its safety)
+				cases++;
+				std::string f = std::string("{") + s1 + "}|{" + s2 + "}|{" + s3 + "}|{}";
+				std::string got = do_fmt(f, 0xbeef, 0xbeef, 0xbeef, (const void *)0xabcd);
+				auto one = [&](const char *sx) -> std::string {
+					Spec p = parse_spec(sx);
+					if(!p.ok) return std::string("{") + sx + "}";
+					return render_int(0xbeef, p);
+				};
+				std::string want = one(s1) + "|" + one(s2) + "|" + one(s3) + "|0xabcd";
+				if(got != want) throw Violation{"C19", "fmt-mismatch:spec-state-leaks", "fmt(\"" + f + "\", 0xbeef, 0xbeef, 0xbeef, (void*)0xabcd) = \"" + got + "\" expected \"" + want + "\" (a spec is rendered with state left over from an earlier one)"};
+			}
+		}
 		// long and unsigned arguments, wide values
 		cases++; if(do_fmt("{:x} {:b} {:o} {}", 0xfffffffffffffffful, 5u, 8ul, -9223372036854775807L - 1) != "ffffffffffffffff 101 10 -9223372036854775808") throw Violation{"C19", "fmt-mismatch:wide", "64-bit values rendered wrongly"};
 		cases++; if(do_fmt("{:020}|{:20}", 123456789012345678L, 42) != "00123456789012345678|                  42") throw Violation{"C19", "fmt-mismatch:wide-width", "wide fields rendered wrongly"};
